@@ -413,8 +413,21 @@ func (s *Server) HandleReader(ctx context.Context, reader io.Reader) ([]byte, ht
 		return nil, header, nil
 	}
 
-	result, err := json.Marshal(resp)
+	result, err := marshalResponse(resp)
 	return result, header, err
+}
+
+// marshalResponse serialises a response object. A handler result that cannot be serialised
+// must not leave the request unanswered: it is replaced by an internal error carrying the
+// request's id.
+func marshalResponse(resp *response) ([]byte, error) {
+	result, err := json.Marshal(resp)
+	if err == nil || resp.Error != nil {
+		return result, err
+	}
+	fallback := errResponse(InternalError, err.Error())
+	fallback.ID = resp.ID
+	return json.Marshal(&fallback)
 }
 
 func (s *Server) handleBatchRequest(ctx context.Context, batchReq []json.RawMessage) ([]byte, http.Header, error) {
@@ -424,8 +437,8 @@ func (s *Server) handleBatchRequest(ctx context.Context, batchReq []json.RawMess
 		headers   []http.Header
 	)
 
-	addResponse := func(response any, header http.Header) {
-		if responseJSON, err := json.Marshal(response); err != nil {
+	addResponse := func(resp *response, header http.Header) {
+		if responseJSON, err := marshalResponse(resp); err != nil {
 			s.logger.Error("failed to marshal response", zap.Error(err))
 		} else {
 			mutex.Lock()
@@ -445,7 +458,7 @@ func (s *Server) handleBatchRequest(ctx context.Context, batchReq []json.RawMess
 
 		req := new(Request)
 		if err := reqDec.Decode(req); err != nil {
-			addResponse(errResponse(InvalidRequest, err.Error()), http.Header{})
+			addResponse(new(errResponse(InvalidRequest, err.Error())), http.Header{})
 			continue
 		}
 
